@@ -98,12 +98,17 @@ func planInbound(r *vh.Rng, n int) []inScen {
 
 func planOutbound(r *vh.Rng, n int) []outScen {
 	var s []outScen
-	add := func(kind, dial string, two bool) { s = append(s, outScen{kind: kind, dial: dial, twoCert: two, sub: r.Fork()}) }
+	add := func(kind, dial string, two bool) {
+		s = append(s, outScen{kind: kind, dial: dial, twoCert: two, sub: r.Fork()})
+	}
 	for _, k := range skiKinds {
 		add(k, "ext", false) // the hub dials exactly the SKI the certificate claims (or own hash when it claims none)
 	}
 	for _, k := range []string{"own", "foreign", "random20", "absent", "len19"} {
 		add(k, "other", false)
+	}
+	for i := 0; i < 4; i++ {
+		add("own", "other", i%2 == 1) // a perfectly valid certificate of a device that was not dialled
 	}
 	add("own", "own", false)
 	add("absent", "own", true)
@@ -345,6 +350,23 @@ func buildChain(r *vh.Rng, kinds []string, victim *crt) []*crt {
 
 func verN(v uint16) int { return int(v) }
 
+// generator class for the input distribution: certificate chain, and whether the rest of the
+// session is acceptable (TLS >= 1.2 and "ship" offered); corpus replays keep the full name
+func inKind(prefix string, sc inScen) string {
+	chain := strings.Join(append([]string{"chain"}, sc.chain...), "+")
+	if strings.HasPrefix(prefix, "corpus_") {
+		return fmt.Sprintf("%s%s_tls%x_%s", prefix, chain, sc.ver, sc.offerId)
+	}
+	rest := "tls_ok"
+	if sc.ver < tls.VersionTLS12 {
+		rest = "tls_below_12"
+	}
+	if sc.offerId == "none" || sc.offerId == "other" || sc.offerId == "Ship" {
+		rest += "_no_ship"
+	}
+	return prefix + chain + "_" + rest
+}
+
 func runInbound(sc inScen, victim *crt) (vh.Case, error) {
 	return inboundCase(sc, buildChain(sc.sub, sc.chain, victim), "sys_in_")
 }
@@ -377,17 +399,16 @@ func inboundCase(sc inScen, chain []*crt, prefix string) (vh.Case, error) {
 	for _, o := range sc.offers {
 		offers = append(offers, vh.HxS(o))
 	}
-	all := append([]*crt{}, chain...)
 	var cs []any
 	for _, c := range chain {
 		cs = append(cs, c.sample())
 	}
 	nontriv := len(chain) > 0 && chain[0].hasSki && len(chain[0].skiExt) == 20
 	return vh.Case{
-		Coq:        fmt.Sprintf("CIn %s %d %s %s (%s)", tblOf(all...), verN(sc.ver), vh.List(offers), coqCerts(chain), got),
+		Coq:        fmt.Sprintf("CIn %d %s %s (%s)", verN(sc.ver), vh.List(offers), coqCerts(chain), got),
 		Nontrivial: nontriv,
 		Key:        fmt.Sprintf("in|%v|%d|%s|%s", sc.chain, sc.ver, sc.offerId, coqCerts(chain)),
-		Kind:       fmt.Sprintf("%s%s_tls%x_%s", prefix, strings.Join(append([]string{"chain"}, sc.chain...), "+"), sc.ver, sc.offerId),
+		Kind:       inKind(prefix, sc),
 		Sample: map[string]any{"session": "inbound: TLS websocket client -> hub.Hub", "client_max_tls": fmt.Sprintf("0x%04x", sc.ver),
 			"offered_subprotocols": sc.offers, "offer_id": sc.offerId, "client_max_tls_n": int(sc.ver), "client_chain": cs, "observed_stage": ob.stage, "attributed_ski": ob.ski,
 			"detail": ob.detail, "selected_subprotocol": ob.subprot},
@@ -561,7 +582,7 @@ func outboundCase(kind, dialled string, chain []*crt) (vh.Case, error) {
 		cs = append(cs, c.sample())
 	}
 	return vh.Case{
-		Coq:        fmt.Sprintf("COut %s %s %s (%s)", tblOf(chain...), vh.HxS(dialled), coqCerts(chain), got),
+		Coq:        fmt.Sprintf("COut %s %s (%s)", vh.HxS(dialled), coqCerts(chain), got),
 		Nontrivial: first.hasSki && len(first.skiExt) == 20,
 		Key:        fmt.Sprintf("out|%s|%s", dialled, coqCerts(chain)),
 		Kind:       kind,
